@@ -28,7 +28,7 @@ PROC_TIMEOUT_S = 20.0
 _real_open = builtins.open
 _real_os = {n: getattr(os, n) for n in
             ('rename', 'replace', 'mkdir', 'remove', 'unlink', 'rmdir', 'open', 'write', 'close',
-             '_exit', 'fork', 'waitpid', 'kill', 'link', 'symlink', 'truncate', 'fsync', 'fdatasync', 'getpid', 'read', 'urandom')}
+             '_exit', 'fork', 'waitpid', 'kill', 'link', 'symlink', 'truncate', 'fsync', 'fdatasync', 'getpid', 'read', 'urandom', 'listdir', 'scandir')}
 if hasattr(os, 'pread'):
     _real_os['pread'] = os.pread
 
@@ -121,6 +121,18 @@ class _Child:
             elif fk == 'kbi':
                 self.log(rec)
                 raise KeyboardInterrupt()
+            elif fk == 'short-write':
+                # write(2) may store fewer bytes than it was given and say so (a disk, a quota or a file-size limit that runs out
+                # in mid-buffer); the next write fails with ENOSPC.  Only an fd-level write sees this - Python's buffered file
+                # objects loop by themselves.  Any other effect at this index: no fault.
+                if kind == 'write' and info.get('via') == 'os.write' and info.get('size', 0) > 1:
+                    self.log(rec)
+                    self.short_next = True
+                else:
+                    self.fired = False
+                    rec.pop('fault')
+                    self.log(rec)
+                return n
             else:
                 raise RuntimeError('unknown fault kind %r' % fk)
         rec = dict(info)
@@ -134,6 +146,13 @@ class _Child:
                 f._persist(cut)
             except Exception:
                 pass
+
+
+def _is_null_device(path):
+    try:
+        return os.fspath(path) in (os.devnull, '/dev/null')
+    except TypeError:
+        return False
 
 
 def _oserror(code, path=None):
@@ -478,6 +497,8 @@ def _install(ch):
             return _real_open(file, mode, buffering, encoding, errors, newline, closefd, opener)
         rel = ch.rel(file)
         writing = any(c in mode for c in 'wax+')
+        if writing and _is_null_device(file):
+            return _real_open(file, mode, buffering, encoding, errors, newline, closefd, opener)
         if writing:
             if rel is None:
                 ch.log({'k': 'escape', 'path': os.fspath(file), 'op': 'open', 'mode': mode})
@@ -633,7 +654,7 @@ def _install(ch):
                         size = 0
                     rfds[fd] = [rp, 0, size]
                     return fd
-        if not writing or kw.get('dir_fd') is not None:
+        if not writing or kw.get('dir_fd') is not None or _is_null_device(path):
             return _real_os['open'](path, flags, mode, *a, **kw)
         rel = guard(path, 'os.open')
         if (flags & os.O_EXCL) and (flags & os.O_CREAT) and os.path.lexists(path):
@@ -646,7 +667,15 @@ def _install(ch):
 
     def sim_os_write(fd, data):
         if fd in ch.fdpaths:
-            ch.effect('write', path=ch.fdpaths[fd][1], size=len(data))
+            if getattr(ch, 'disk_full', False) and len(data):
+                ch.log({'k': 'write', 'path': ch.fdpaths[fd][1], 'size': len(data), 'fault': 'disk-full', 'errno': 'ENOSPC', 'n': ch.n})
+                ch.n += 1
+                raise _oserror(errno_mod.ENOSPC)
+            ch.effect('write', path=ch.fdpaths[fd][1], size=len(data), via='os.write')
+            if getattr(ch, 'short_next', False):
+                ch.short_next = False
+                ch.disk_full = True
+                return _real_os['write'](fd, bytes(data)[:len(data) // 2])
         return _real_os['write'](fd, data)
 
     def _rfault(rp):
@@ -725,6 +754,33 @@ def _install(ch):
         ch.effect('truncate', path=rel, size=length)
         return done(_real_os['truncate'], path, length)
 
+    def _dir_fault(path, via):
+        if isinstance(path, int):
+            return
+        try:
+            rel = ch.rel(path)
+        except Exception:
+            rel = None
+        if rel is None:
+            return
+        ch.log({'k': 'listdir', 'path': rel, 'via': via})
+        rp = (ch.plan.get('listdir') or {}).get(rel)
+        if rp:
+            ch.fired = True
+            ch.log({'k': 'readfault', 'path': rel, 'plan': rp, 'via': via})
+            code = getattr(errno_mod, rp.get('errno', 'EACCES'))
+            raise _oserror(code, os.fspath(path))
+
+    def sim_listdir(path='.'):
+        _dir_fault(path, 'listdir')
+        return _real_os['listdir'](path)
+
+    def sim_scandir(path='.'):
+        _dir_fault(path, 'scandir')
+        return _real_os['scandir'](path)
+
+    os.listdir = sim_listdir
+    os.scandir = sim_scandir
     os.open = sim_os_open
     os.read = sim_os_read
     if 'pread' in _real_os:
@@ -1007,7 +1063,10 @@ def _say(text):
     try:
         sys.stderr.write(text)
     except OSError:
-        pass
+        dbg = os.environ.get('TALLYSIM_LOST_STDERR')      # debugging aid: where to keep what could not be said
+        if dbg:
+            with _real_open(dbg, 'a') as fh:
+                fh.write(text)
 
 
 def _child_main(root, ctl, cwd, plan, target):
